@@ -71,6 +71,13 @@ func init() {
 				return "", err
 			}
 		}
+		if fd := FindFunc(kvf, "indexKVStore", "addBucketCache"); fd != nil {
+			sb.WriteString("\ndef kvAddBucketCacheCalls : List String := " + LeanStrList(CallSeq(fd)) + "\n")
+		} else {
+			sb.WriteString("\ndef kvAddBucketCacheCalls : List String := []\n")
+		}
+		// what createValue builds its index-kv reader on (the argument text of v1.NewIndexKVReader)
+		sb.WriteString("\ndef kvCreateValueReaderArgs : List String := " + LeanStrList(callArgTexts(FindFunc(kvf, "indexKVStore", "createValue"), "NewIndexKVReader")) + "\n")
 		// what the error branches of indexKVStore.Flush do besides returning the error
 		sb.WriteString("\ndef kvFlushErrBranchCalls : List (List String) := [" + strings.Join(errBranchCalls(FindFunc(kvf, "indexKVStore", "Flush")), ", ") + "]\n")
 		// ---- index/metric_schema_store.go
@@ -174,6 +181,25 @@ func errBranchCalls(fd *ast.FuncDecl) []string {
 		}
 		if mentionsErr && returns {
 			out = append(out, LeanStrList(CallSeq(&ast.FuncDecl{Body: is.Body})))
+		}
+		return true
+	})
+	return out
+}
+
+// callArgTexts: the first-argument texts ("recv.Sel" shortened as CallSeq does) of the calls of sel in fd.
+func callArgTexts(fd *ast.FuncDecl, sel string) []string {
+	var out []string
+	if fd == nil || fd.Body == nil {
+		return out
+	}
+	ast.Inspect(fd.Body, func(n ast.Node) bool {
+		ce, ok := n.(*ast.CallExpr)
+		if !ok || len(ce.Args) == 0 {
+			return true
+		}
+		if se, ok := ce.Fun.(*ast.SelectorExpr); ok && se.Sel.Name == sel {
+			out = append(out, exprName(ce.Args[0]))
 		}
 		return true
 	})
